@@ -157,6 +157,7 @@ fn c07_cfg(rng: &mut Rng) -> Cfg {
         lat: *rng.pick(&[Lat::None, Lat::None, Lat::Fixed(200)]),
         page_cache: false,
         fs_seed: rng.next_u64(),
+        capacity: None,
     }
 }
 
@@ -218,7 +219,10 @@ fn every_prefix(
             report(out, cfg, &hp, c, kind);
             break;
         }
-        if o.discarded.is_some() {
+        if let Some(d) = &o.discarded {
+            if std::env::var("FSMODEL_DEBUG").is_ok() && d.starts_with("volatile") {
+                eprintln!("DISCARD {d} {} {}", cfg.to_json(), hist_json(&hp));
+            }
             // later prefixes share the diverging prefix
             break;
         }
@@ -257,6 +261,139 @@ fn scenario_direct(ctx: &Ctx, idx: u64) -> ScenarioOut {
     ));
     out.sample = Some(json!({"kind":"direct","cfg":cfg.to_json(),"history":hist_json(&h[..h.len().min(14)]),
         "len":h.len(),"crash_points":crashes,"nontrivial_crash_points":nontrivial}));
+    out
+}
+
+/// Structured "stage and publish" histories: a file is created in a staging
+/// directory, written, data-synced, renamed (within the directory or into
+/// another one, onto nothing or onto an existing file) while its OWN directory
+/// entry may never have been made durable, then the destination and / or the
+/// source directory are synced in either order. Together with the crash after
+/// every prefix this pins down "a file is present iff its directory entry was
+/// made durable by syncing its parent directory" for renamed entries.
+fn gen_publish(rng: &mut Rng) -> (Vec<Op>, Vec<&'static str>) {
+    let fe = |rng: &mut Rng| *rng.pick(&[Fe::Std, Fe::Std, Fe::Tokio]);
+    let mut tags = vec![];
+    let src_dir = *rng.pick(&["/a", "/d", "/"]);
+    let cross = rng.chance(0.65);
+    let dst_dir = if cross {
+        *rng.pick(&["/b", "/a", "/d", "/"].iter().filter(|d| **d != src_dir).copied().collect::<Vec<_>>())
+    } else {
+        src_dir
+    };
+    tags.push(if cross { "publish:cross_dir" } else { "publish:same_dir" });
+    let join = |d: &str, n: &str| if d == "/" { format!("/{n}") } else { format!("{d}/{n}") };
+    let src = join(src_dir, "a");
+    let dst = join(dst_dir, "b");
+    let mut h = vec![];
+    for d in [src_dir, dst_dir] {
+        if d != "/" && !h.iter().any(|o| matches!(o, Op::CreateDir { p, .. } if p == d)) {
+            h.push(Op::CreateDir { p: d.into(), fe: Fe::Std });
+        }
+    }
+    h.push(Op::SyncDir { p: "/".into(), fe: Fe::Std });
+    if rng.chance(0.6) {
+        for d in [src_dir, dst_dir] {
+            h.push(Op::SyncDir { p: d.into(), fe: Fe::Std });
+        }
+    }
+    // an existing file under the destination name (replaced by the rename)
+    if rng.chance(0.4) {
+        tags.push("publish:onto_existing");
+        h.push(Op::WriteAll { p: dst.clone(), n: rng.range(1, 9) as u32, key: rng.below(26) as u8, fe: fe(rng) });
+        h.push(Op::SyncAll { p: dst.clone(), fe: fe(rng) });
+        if rng.chance(0.7) {
+            h.push(Op::SyncDir { p: dst_dir.into(), fe: Fe::Std });
+        } else {
+            tags.push("publish:existing_entry_not_durable");
+        }
+    }
+    // stage
+    h.push(Op::WriteAll { p: src.clone(), n: rng.range(1, 12) as u32, key: rng.below(26) as u8, fe: fe(rng) });
+    if rng.chance(0.4) {
+        h.push(Op::WriteAt { p: src.clone(), off: rng.below(6), n: rng.range(1, 6) as u32, key: rng.below(26) as u8, fe: fe(rng) });
+    }
+    h.push(match rng.below(3) {
+        0 => Op::SyncData { p: src.clone(), fe: fe(rng) },
+        1 => Op::SyncAll { p: src.clone(), fe: Fe::Uring },
+        _ => Op::SyncAll { p: src.clone(), fe: fe(rng) },
+    });
+    if rng.chance(0.3) {
+        tags.push("publish:source_entry_durable");
+        h.push(Op::SyncDir { p: src_dir.into(), fe: Fe::Std });
+    } else {
+        tags.push("publish:source_entry_never_durable");
+    }
+    // publish
+    h.push(Op::Rename { a: src.clone(), b: dst.clone(), fe: fe(rng) });
+    let order = rng.below(5);
+    let (first, second): (Option<&str>, Option<&str>) = match order {
+        0 => (Some(dst_dir), None),
+        1 => (Some(dst_dir), Some(src_dir)),
+        2 => (Some(src_dir), Some(dst_dir)),
+        3 => (Some(src_dir), None),
+        _ => (Some(dst_dir), Some(dst_dir)),
+    };
+    tags.push(match order {
+        0 => "publish:sync_dst_only",
+        1 => "publish:sync_dst_then_src",
+        2 => "publish:sync_src_then_dst",
+        3 => "publish:sync_src_only",
+        _ => "publish:sync_dst_twice",
+    });
+    if let Some(d) = first {
+        h.push(Op::SyncDir { p: d.into(), fe: Fe::Std });
+    }
+    if rng.chance(0.3) {
+        // keep using the published file once its rename has been flushed
+        h.push(Op::WriteAt { p: dst.clone(), off: rng.below(4), n: rng.range(1, 5) as u32, key: rng.below(26) as u8, fe: fe(rng) });
+        if rng.coin() {
+            h.push(Op::SyncAll { p: dst.clone(), fe: fe(rng) });
+        }
+    }
+    if let Some(d) = second {
+        h.push(Op::SyncDir { p: d.into(), fe: Fe::Std });
+    }
+    if rng.chance(0.3) {
+        // crash - continue - crash: stage a second generation
+        h.push(Op::Crash);
+        h.push(Op::WriteAll { p: src.clone(), n: rng.range(1, 8) as u32, key: rng.below(26) as u8, fe: fe(rng) });
+        h.push(Op::SyncAll { p: src.clone(), fe: fe(rng) });
+        h.push(Op::Rename { a: src, b: dst, fe: fe(rng) });
+        h.push(Op::SyncDir { p: dst_dir.into(), fe: Fe::Std });
+    }
+    (h, tags)
+}
+
+fn scenario_publish(ctx: &Ctx, idx: u64) -> ScenarioOut {
+    let mut rng = Rng::new(ctx.scenario_seed("publish", idx));
+    let cfg = c07_cfg(&mut rng);
+    let (h, tags) = gen_publish(&mut rng);
+    let mut out = ScenarioOut::default();
+    let mut st = Stats::default();
+    out.count("histories_publish", 1);
+    for t in &tags {
+        out.count(t, 1);
+    }
+    if let Some(z) = crate::zones::in_zone(&h) {
+        // stays a counted exclusion, never silently dropped
+        out.count(&format!("zone_rejected:{z}"), 1);
+        out.discarded = Some("zone".into());
+        return out;
+    }
+    let (crashes, nontrivial, _max) = every_prefix(&mut out, &cfg, &h, &mut st, "publish");
+    for (k, v) in &st.c {
+        out.count(k, *v);
+    }
+    out.nontrivial = nontrivial > 0;
+    out.digest = vcore::digest_str(&format!(
+        "publish|{}|{}|{:?}",
+        crate::ops::canonical(&h),
+        cfg.sync_prob > 0.0,
+        cfg.block
+    ));
+    out.sample = Some(json!({"kind":"publish","cfg":cfg.to_json(),"tags":tags,"history":hist_json(&h),
+        "crash_points":crashes,"nontrivial_crash_points":nontrivial}));
     out
 }
 
@@ -408,7 +545,18 @@ fn judge(cfg: &Cfg, h: &[Op], recs: &[Rec], st: &mut Stats, who: &str) -> Outcom
 /// Two hosts in one Sim; each history must end with `Crash`. Host 0 is
 /// crashed + bounced at each of its Crash ops while host 1 keeps running;
 /// host 1 is crashed once at the very end.
-pub fn run_sim(cfg: &Cfg, seed: u64, hs: [&[Op]; 2], st: &mut Stats) -> [Outcome; 2] {
+///
+/// `finish[w]`: host w's software *returns* `Ok(())` at the end of each
+/// segment (the runtime consumes its join handle before the crash) instead of
+/// parking forever: a host whose program has exited still owns a file system
+/// with unsynced state, and `Sim::crash` must roll that back too.
+pub fn run_sim(
+    cfg: &Cfg,
+    seed: u64,
+    hs: [&[Op]; 2],
+    finish: [bool; 2],
+    st: &mut Stats,
+) -> [Outcome; 2] {
     let uni: Arc<Vec<String>> = Arc::new({
         let mut u = vec!["/".to_string()];
         u.extend(universe());
@@ -445,7 +593,9 @@ pub fn run_sim(cfg: &Cfg, seed: u64, hs: [&[Op]; 2], st: &mut Stats) -> [Outcome
                     tokio::time::sleep(Duration::from_millis(1)).await;
                 }
                 sh.lock().unwrap().done[phase] = true;
-                std::future::pending::<()>().await;
+                if !finish[w] {
+                    std::future::pending::<()>().await;
+                }
                 Ok(())
             }
         });
@@ -475,6 +625,18 @@ pub fn run_sim(cfg: &Cfg, seed: u64, hs: [&[Op]; 2], st: &mut Stats) -> [Outcome
             break;
         }
         if phase + 1 < nseg[0] {
+            if finish[0] {
+                // let the runtime notice that the software has returned
+                for _ in 0..3 {
+                    steps += 1;
+                    if let Err(e) = sim.step() {
+                        err = Some(format!("Sim::step failed: {e}"));
+                    }
+                }
+                if !sim.is_host_running("h0") {
+                    st.inc("sim_crash_of_finished_host");
+                }
+            }
             sim.crash("h0");
             shared[0].lock().unwrap().phase = phase + 1;
             sim.bounce("h0");
@@ -492,6 +654,17 @@ pub fn run_sim(cfg: &Cfg, seed: u64, hs: [&[Op]; 2], st: &mut Stats) -> [Outcome
                 break;
             }
             if phase + 1 < nseg[1] {
+                if finish[1] {
+                    for _ in 0..3 {
+                        steps += 1;
+                        if let Err(e) = sim.step() {
+                            err = Some(format!("Sim::step failed: {e}"));
+                        }
+                    }
+                    if !sim.is_host_running("h1") {
+                        st.inc("sim_crash_of_finished_host");
+                    }
+                }
                 sim.crash("h1");
                 shared[1].lock().unwrap().phase = phase + 1;
                 sim.bounce("h1");
@@ -538,7 +711,8 @@ fn scenario_sim(ctx: &Ctx, idx: u64) -> ScenarioOut {
     crate::gen::count_rejected(&mut out, &r1);
     out.count("histories_sim", 1);
     let mut st = Stats::default();
-    let os = run_sim(&cfg, seed, [&h0, &h1], &mut st);
+    let finish = [rng.coin(), rng.coin()];
+    let os = run_sim(&cfg, seed, [&h0, &h1], finish, &mut st);
     let mut nontrivial = 0;
     for (w, o) in os.iter().enumerate() {
         absorb_outcome(&mut out, o);
@@ -555,7 +729,7 @@ fn scenario_sim(ctx: &Ctx, idx: u64) -> ScenarioOut {
                     &c.class,
                     format!("{}|sim|{}", c.class, crate::ops::canonical(h)),
                     c.what.clone(),
-                    json!({"kind":"sim","cfg":cfg.to_json(),"seed":seed,"h0":hist_json(&h0),"h1":hist_json(&h1)}),
+                    json!({"kind":"sim","cfg":cfg.to_json(),"seed":seed,"finish":finish,"h0":hist_json(&h0),"h1":hist_json(&h1)}),
                 );
             }
         }
@@ -569,7 +743,7 @@ fn scenario_sim(ctx: &Ctx, idx: u64) -> ScenarioOut {
         crate::ops::canonical(&h0),
         crate::ops::canonical(&h1)
     ));
-    out.sample = Some(json!({"kind":"sim","cfg":cfg.to_json(),"h0":hist_json(&h0),"h1":hist_json(&h1[..h1.len().min(6)])}));
+    out.sample = Some(json!({"kind":"sim","cfg":cfg.to_json(),"software_returns_before_crash":finish,"h0":hist_json(&h0),"h1":hist_json(&h1[..h1.len().min(6)])}));
     out
 }
 
@@ -608,7 +782,11 @@ fn replay(w: Value) -> ScenarioOut {
     if w["kind"].as_str() == Some("sim") {
         let h0 = hist_parse(&w["h0"]);
         let h1 = hist_parse(&w["h1"]);
-        let os = run_sim(&cfg, w["seed"].as_u64().unwrap_or(0), [&h0, &h1], &mut st);
+        let fin = [
+            w["finish"][0].as_bool().unwrap_or(false),
+            w["finish"][1].as_bool().unwrap_or(false),
+        ];
+        let os = run_sim(&cfg, w["seed"].as_u64().unwrap_or(0), [&h0, &h1], fin, &mut st);
         for o in os {
             if let Some(c) = o.complaint {
                 out.violate(&c.class, format!("{}|sim", c.class), c.what, w.clone());
@@ -668,6 +846,15 @@ pub fn finish_spec(ctx: &Ctx) -> Finish<'static> {
             "adopted_non_base_content",
             "sim_crashes",
             "sim_bounces",
+            "sim_crash_of_finished_host",
+            "histories_publish",
+            "publish:cross_dir",
+            "publish:same_dir",
+            "publish:source_entry_never_durable",
+            "publish:sync_dst_only",
+            "publish:sync_dst_then_src",
+            "publish:sync_src_then_dst",
+            "publish:onto_existing",
             "fe:std",
             "fe:tokio",
             "fe:uring",
@@ -727,6 +914,17 @@ pub fn run(ctx: &Ctx) -> ! {
     rep.merge(r);
     rep.extra
         .insert("exhaustive_small_scope".into(), json!({"length": len, "alphabet": alphabet().len(), "histories": n_exh, "completed": exh_done}));
+    let n_pub = ctx.pick(6_000u64, 60_000);
+    let c2 = ctx.clone();
+    rep.merge(vcore::run_parallel(
+        ctx,
+        n_pub,
+        RunOpts {
+            budget_s: budget * 0.15,
+            scenario_timeout_s: 120.0,
+        },
+        move |i| scenario_publish(&c2, i),
+    ));
     let n_direct = ctx.pick(45_000u64, 400_000);
     let c2 = ctx.clone();
     rep.merge(vcore::run_parallel(
